@@ -714,6 +714,13 @@ def knob_rule(fi, param, rule="KNOB", forward_ok=True):
                 verdict = "ok"
             elif isinstance(par, ast.Call) and isinstance(par.func, ast.Call) and dotted(par.func.func) in KNOB_SINKS and node is par.func:
                 verdict = "ok"       # Parallel(n_jobs=..)(..): the knob sits in the inner call
+            elif isinstance(par, ast.IfExp) and node is par.test:
+                # `tqdm(E) if verbose else E`: the progress wrapper yields the elements of what it wraps
+                def unwrap(e_):
+                    if isinstance(e_, ast.Call) and dotted(e_.func) in ("tqdm", "tqdm.tqdm", "tqdm.auto.tqdm") and e_.args:
+                        return unparse(e_.args[0])
+                    return unparse(e_)
+                verdict = "ok" if unwrap(par.body) == unwrap(par.orelse) else "unknown"
             elif isinstance(par, ast.If) and node is par.test:
                 end = par.end_lineno or par.lineno
                 if all(isinstance(st, ast.Raise) for st in par.body) and not par.orelse:
